@@ -195,6 +195,30 @@ func modelAfter(seq []opk) []stage {
 	return sts
 }
 
+// prefixes are the fixed operation sequences that lead to the non-initial start states.
+func prefixes() [][]opk {
+	rep := func(o opk, k int) []opk {
+		var out []opk
+		for i := 0; i < k; i++ {
+			out = append(out, o)
+		}
+		return out
+	}
+	var cyc []opk
+	ops := []opk{{"Write", 1, 0}, {"Write", 65, 0}, {"Read", 7, 0}, {"XORKeyStream", 129, 0}, {"Reseed", 0, 0}, {"Write", 0, 0}, {"Read", 64, 0}, {"Read", 1, 0}, {"Reseed", 0, 0}}
+	for i := 0; i < 27; i++ {
+		cyc = append(cyc, ops[i%len(ops)])
+	}
+	return [][]opk{
+		rep(opk{"Read", 7, 0}, 20),
+		append(append(rep(opk{"Write", 1, 0}, 9), opk{"Write", 64, 0}, opk{"Read", 65, 0}, opk{"XORKeyStream", 129, 0}, opk{"Reseed", 0, 0}, opk{"Write", 137, 0}, opk{"Read", 600, 0}, opk{"Reseed", 0, 0}, opk{"Reseed", 0, 0}), opk{"Read", 1, 0}),
+		{{"Read", 600, 0}, {"Clone", 0, 0}, {"Read", 64, 1}, {"Reseed", 0, 0}, {"Reseed", 0, 1}, {"Write", 65, 0}, {"Read", 129, 1}, {"XORKeyStream", 1, 0}},
+		append(rep(opk{"XORKeyStream", 137, 0}, 5), opk{"Reset", 0, 0}, opk{"Write", 128, 0}, opk{"Read", 0, 0}, opk{"Read", 63, 0}),
+		append(rep(opk{"Reseed", 0, 0}, 3), opk{"Write", 0, 0}, opk{"Read", 128, 0}, opk{"Reset", 0, 0}, opk{"Reset", 0, 0}, opk{"Read", 136, 0}),
+		cyc,
+	}
+}
+
 func Run(c *vf.Check) {
 	c.Level = "model_checking"
 	depth := 3
@@ -284,9 +308,40 @@ func Run(c *vf.Check) {
 			}
 		}
 	}
+	// non-initial start states: long fixed prefixes (up to 27 steps: partially consumed blocks, several
+	// reseeds, a clone that has diverged, reset after reseed), each followed by every sequence of depth <= 2
+	for _, f := range factories {
+		for _, sl := range []int{0, 65} {
+			for pi, pre := range prefixes() {
+				f, sl, pi, pre := f, sl, pi, pre
+				d2 := 2
+				jobs = append(jobs, func() {
+					pk := "C19/" + f.name
+					seed := pattern("seed", sl)
+					var rec func(seq []opk)
+					rec = func(seq []opk) {
+						id := fmt.Sprintf("%s seedlen=%d: prefix %d %v", f.name, sl, pi, seq[len(pre):])
+						c.Case(id, pk, func(x *vf.Ctx) { run(x, f, seed, seq, pk); c.Eval(1) })
+						c.Count("transitions", 1)
+						c.Count("traces_validated_against_impl", 1)
+						c.Count("states", 1)
+						c.Nontrivial(id)
+						c.Class(f.name+"/after-long-prefix/"+lastKind(seq), func() any { return id })
+						if len(seq) == len(pre)+d2 {
+							return
+						}
+						for _, o := range menu(modelAfter(seq), sizes) {
+							rec(append(append([]opk{}, seq...), o))
+						}
+					}
+					rec(append([]opk{}, pre...))
+				})
+			}
+		}
+	}
 	jobs = append(jobs, randomJobs(c)...)
 	vf.Parallel(len(jobs), func(i int) { jobs[i]() })
-	c.Finish("engine S: blake2xb, blake2xs, keccak: every sequence of depth <= 3 (thorough 4) over {Write(c) while absorbing, Read(n), XORKeyStream(n), Reseed, Clone (exploration continues on both copies), Reset (factory-made objects)} with sizes {0,1,64,65,128,129,137,600} and seed lengths {0,1,32,33,64,65,129,300}, plus every seed length 0..300 at depth 1; every output and a final 70-byte probe of every live object is compared with the single-shot reference (fresh New(seed), absorb, one Read); Reseed = fresh XOF keyed by the next 128 output bytes; Reset = the seeded initial state. "+
+	c.Finish("engine S: blake2xb, blake2xs, keccak: every sequence of depth <= 3 (thorough 4) over {Write(c) while absorbing, Read(n), XORKeyStream(n), Reseed, Clone (exploration continues on both copies), Reset (factory-made objects)} with sizes {0,1,64,65,128,129,137,600} and seed lengths {0,1,32,33,64,65,129,300}, plus every seed length 0..300 at depth 1, plus every sequence of depth <= 2 started from 6 non-initial states reached by fixed prefixes of 8-27 steps (partially consumed blocks, repeated reseeds, a diverged clone, reset after reseed); every output and a final 70-byte probe of every live object is compared with the single-shot reference (fresh New(seed), absorb, one Read); Reseed = fresh XOF keyed by the next 128 output bytes; Reset = the seeded initial state. "+
 		"random.Bits: every bit length 0..1030 x exact x 4 streams; random.Int: every modulus 1..1024 and {2^(b-1), 2^b-1, 2^(b-1)+1, r} for b=1..521 under 5 streams incl. all-0xff and modulus-valued prefixes, recording stream for determinism; exhaustive first-draw enumeration (all 2^8/2^16 byte strings) for 14 moduli <= 65535: accepted outputs exactly uniform. randstream: all reader sets of size 1..3 over {good, short, failing}: deterministic, depends on every reader's bytes, works iff one reader delivers. "+
 		"non-trivial = sequences of length >= 2; moduli that are not powers of two",
 		[]string{"the XOF reference is the same implementation used single-shot (the property is about chunking, cloning, reseeding and reset, not about matching a standard)"}, nil)
